@@ -1255,37 +1255,116 @@ func (fr *Frame) next(x *ssa.Next, st *State) {
 	fr.tuples[x] = []Term{ok, k, v}
 }
 
-func (fr *Frame) checkFrame(st *State, in ssa.Instruction, addr ssa.Value) {
-	// frame obligations are generated only when the contract has a modifies clause (see contracts.go)
-	fe := fr.fe
-	if fr.depth != 0 || fe.fc == nil || fe.fc.Modifies == nil {
-		return
-	}
-	fa, ok := addr.(*ssa.FieldAddr)
-	if !ok {
-		return
-	}
-	stT := fa.X.Type().Underlying().(*types.Pointer).Elem()
-	fname := stT.Underlying().(*types.Struct).Field(fa.Field).Name()
-	tn := typeKey(stT)
-	if i := strings.LastIndex(tn, "."); i >= 0 {
-		tn = tn[i+1:]
-	}
-	allowed := false
-	for _, m := range fe.fc.Modifies {
-		if m == tn+"."+fname || m == tn+".*" || m == "*" {
-			allowed = true
-		}
-	}
-	if allowed {
-		return
-	}
-	// writing a freshly allocated object is always inside the frame
-	base := fr.val(fa.X).S
+func (fe *FuncEnc) frameRestricted() bool {
+	return fe.fc != nil && (fe.fc.NoMod || fe.fc.Pure || fe.fc.Modifies != nil)
+}
+
+func (fe *FuncEnc) freshCond(obj string) string {
 	var fresh []string
 	for _, a := range fe.allocs {
-		fresh = append(fresh, fmt.Sprintf("(= %s %s)", base, a))
+		fresh = append(fresh, fmt.Sprintf("(= %s %s)", obj, a))
 	}
-	fe.addOblig(&Oblig{Kind: "frame", Props: fe.fc.Props, Label: "store:" + tn + "." + fname, Reach: st.alive,
-		Formula: sOr(fresh...), Src: "store to " + tn + "." + fname, Pos: fr.pos(in.Pos())}, nil)
+	return sOr(fresh...)
+}
+
+// checkFrame: in a function whose contract restricts its frame (nomod / modifies), every store must hit
+// the declared frame or an object allocated by this activation.
+func (fr *Frame) checkFrame(st *State, in ssa.Instruction, addr ssa.Value) {
+	fe := fr.fe
+	if fr.depth != 0 || !fe.frameRestricted() {
+		return
+	}
+	var base, what string
+	switch a := addr.(type) {
+	case *ssa.FieldAddr:
+		root := ssa.Value(a)
+		for {
+			if f, ok := root.(*ssa.FieldAddr); ok {
+				root = f.X
+				continue
+			}
+			if ia, ok := root.(*ssa.IndexAddr); ok {
+				root = ia.X
+				continue
+			}
+			break
+		}
+		stT := a.X.Type().Underlying().(*types.Pointer).Elem()
+		fname := stT.Underlying().(*types.Struct).Field(a.Field).Name()
+		tn := typeKey(stT)
+		if i := strings.LastIndex(tn, "."); i >= 0 {
+			tn = tn[i+1:]
+		}
+		for _, m := range fe.fc.Modifies {
+			if m == tn+"."+fname || m == tn+".*" || m == "*" {
+				return
+			}
+		}
+		what = tn + "." + fname
+		rv := fr.val(root)
+		if rv.K == SSlice {
+			base = "(s_base " + rv.S + ")"
+		} else {
+			base = rv.S
+		}
+	case *ssa.IndexAddr:
+		rv := fr.val(a.X)
+		what = "elem:" + describe(a.X, 0)
+		if rv.K == SSlice {
+			base = "(s_base " + rv.S + ")"
+		} else {
+			base = rv.S
+		}
+		for _, m := range fe.fc.Modifies {
+			if m == "*" || m == "elems" {
+				return
+			}
+		}
+	default:
+		if _, isAlloc := addr.(*ssa.Alloc); isAlloc {
+			return
+		}
+		what = "deref:" + describe(addr, 0)
+		base = fr.val(addr).S
+		for _, m := range fe.fc.Modifies {
+			if m == "*" {
+				return
+			}
+		}
+	}
+	fe.opCount["frame:"+what]++
+	label := "store:" + what
+	if n := fe.opCount["frame:"+what]; n > 1 {
+		label = fmt.Sprintf("%s#%d", label, n-1)
+	}
+	fe.addOblig(&Oblig{Kind: "frame", Props: fe.fc.Props, Label: label, Reach: st.alive,
+		Formula: fe.freshCond(base), Src: "store to " + what + " stays inside the frame", Pos: fr.pos(in.Pos())}, nil)
+}
+
+// frameCall: a call that may modify the heap inside a frame-restricted function.
+func (fr *Frame) frameCall(st *State, c ssa.CallInstruction, name string, objs []string) {
+	fe := fr.fe
+	if fr.depth != 0 || !fe.frameRestricted() {
+		return
+	}
+	for _, m := range fe.fc.Modifies {
+		if m == "*" {
+			return
+		}
+	}
+	f := "false"
+	if objs != nil {
+		var cs []string
+		for _, o := range objs {
+			cs = append(cs, fe.freshCond(o))
+		}
+		f = sAnd(cs...)
+	}
+	label := "call:" + callShort(c)
+	fe.opCount["frame:"+label]++
+	if n := fe.opCount["frame:"+label]; n > 1 {
+		label = fmt.Sprintf("%s#%d", label, n-1)
+	}
+	fe.addOblig(&Oblig{Kind: "frame", Props: fe.fc.Props, Label: label, Reach: st.alive, Formula: f,
+		Src: "call of " + name + " stays inside the frame", Pos: fr.pos(c.Pos())}, nil)
 }
